@@ -71,6 +71,11 @@ def block_typing(idx: ProgramIndex, rep: Report):
                     # re-construction of a lazy tensor from the fields of a typed one keeps its block type
                     if isinstance(v, ast.Call) and src(v.func) == "LazyEvaluatedKernelTensor" and v.args and isinstance(v.args[0], ast.Attribute) and isinstance(v.args[0].value, ast.Name) and v.args[0].value.id in be.env:
                         continue
+                    # ... and so does a kernel evaluated on the inputs (x1, x2) of a typed tensor: rows from its x1, columns from its x2
+                    if isinstance(v, ast.Call) and len(v.args) >= 2 and all(isinstance(a, ast.Attribute) and isinstance(a.value, ast.Name) for a in v.args[:2]) \
+                            and (v.args[0].attr, v.args[1].attr) == ("x1", "x2") and v.args[0].value.id == v.args[1].value.id and v.args[0].value.id in be.env \
+                            and isinstance(st.targets[0], ast.Name) and st.targets[0].id == v.args[0].value.id:
+                        continue
                     be.assign(st.targets[0], v)
                 elif isinstance(st, ast.Return):
                     ret = st.value
